@@ -164,8 +164,9 @@ def families(tier):
     centres = [[0.45, 0.4, 0.42]] if quick else [[0.45, 0.4, 0.42], [0.4, 0.45, 0.5]]
     strengths = [1.0] if quick else [1.0, 2.5]
     nus = [4e-3] if quick else [4e-3, 2e-3]
-    # direction alphabet: all signs positive / all negative / axis-aligned (other components exactly zero) / mixed
-    dirs = [[1.0, 1.0, 0.5], [-1.0, -0.75, -0.5], [0.0, 1.0, 0.0]] if quick else [[1.0, 1.0, 0.5], [-1.0, -0.75, -0.5], [0.0, 1.0, 0.0], [1.0, 0.0, 0.0], [1.0, -0.5, 0.25], [-1.0, 0.5, -0.5]]
+    # direction alphabet: all signs positive / all negative / axis-aligned (other components exactly zero) / mixed /
+    # mixed with components that cancel exactly in the plane (sum u_i = 0 while sum |u_i| is not)
+    dirs = [[1.0, 1.0, 0.5], [-1.0, -0.75, -0.5], [0.0, 1.0, 0.0], [1.0, -1.0, 0.5]] if quick else [[1.0, 1.0, 0.5], [-1.0, -0.75, -0.5], [0.0, 1.0, 0.0], [1.0, 0.0, 0.0], [1.0, -0.5, 0.25], [-1.0, 0.5, -0.5], [1.0, -1.0, 0.5], [-2.0, 1.0, 1.0]]
     dts = ["float64"] if quick else ["float64", "float32"]
     for kind in ("ns2d", "pt2d", "pt3ds"):
         for c, s, nu, d, dt in itertools.product(centres, strengths, nus, dirs, dts):
